@@ -68,7 +68,9 @@ def check_C11(ctx, rep):
     rep.analysed["only_in_A"] = only_a; rep.analysed["only_in_B"] = only_b
     for i in only_a + only_b:
         b = ia.get(i) or ib.get(i)
-        numeric = b.output in (TF, "f64") or TF in (b.inputs or [])
+        # (a private helper that exists in one configuration only - `mod word { pub fn floor(x) { x.floor() } }` under std, a
+        #  re-export of libm's under no_std - is read in place by the bodies that call it, which are compared below)
+        numeric = (b.output in (TF, "f64") or TF in (b.inputs or [])) and b.reachable
         rep.check(not numeric, "R25", "item in one configuration only: " + i, "cfg-only:" + i,
                   "%s exists in only one feature configuration and is part of the numeric API" % i, where=H.where(b), nontrivial=False)
     n = 0; n_tree = 0; n_raw = 0
@@ -177,7 +179,7 @@ def transfer(ctx, rep, covered, prop=None):
         if a is None:
             continue
         if b is None:
-            if a.output in (TF, "f64") or TF in (a.inputs or []):
+            if (a.output in (TF, "f64") or TF in (a.inputs or [])) and a.reachable:
                 bad.append(("cfg-only:" + i, "%s exists only in the default-feature build" % i, a))
             continue
         n += 1
